@@ -150,7 +150,7 @@ def akai_program_items(rng, n: int):
                   keygroup_crossfade=rng.choice([0, 1, 9]), fx_output=rng.choice([0, 1]), stereo_coherence=rng.choice([0, 1, 2]),
                   lfo_desync=rng.choice([0, 1]), tune_cents=rng.randrange(-128, 128), voice_output_scale_db=rng.randrange(0, 5),
                   stereo_output_scale_db=rng.randrange(0, 4), key_temperaments=[S(rng.randrange(256)) for _ in range(12)], keygroups=kgs,
-                  perm=rng.random(), layout=["standard", "standard", "gapped"][i % 3])
+                  perm=rng.random(), layout=["standard", "standard", "gapped", "far"][i % 4])
         items.append(st)
     return items
 
@@ -167,10 +167,14 @@ def program_bytes(st, rng) -> bytes:
     if st.get("layout") == "standard":       # the usual geometry: 150-byte slots from address 150, visited in permuted order
         base = 150
         addr = [150 * (slots[i] + 1) for i in range(nk)]
+    elif st.get("layout") == "far":          # a program file of several sectors: keygroup addresses up to 0xFFxx (beyond 0x7FFF: the
+        base = 72 + rng.randrange(0, 40)     # address is an unsigned 16-bit byte offset)
+        step = 65000 // max(nk, 1) if nk > 1 else 40000
+        addr = [base + slots[i] * step + (40000 if nk == 1 else 0) for i in range(nk)]
     else:
         base = 72 + rng.randrange(0, 40)
         addr = [base + slots[i] * (150 + 7) for i in range(nk)]      # keygroup i lives at addr[i]
-    buf = bytearray(base + nk * 157 + 10)
+    buf = bytearray(max([base + nk * 157] + [a + 157 for a in addr]) + 10)
     hv = {k: int(v) for k, v in st["ints"].items()}
     hv.update(first_keygroup_address=addr[0], program_name=st["program_name"], midi_channel=st["midi_channel"],
               aux_output_select=st["aux_output_select"], priority=st["priority"], voice_reassign=st["voice_reassign"], low_key=st["low_key"],
@@ -215,6 +219,15 @@ def akai_program_image(items, rng, seed) -> bytes:
         f["ftype"] = rng.choice([0x70, 0xF0])
         f["content_head"] = content
         f["size"] = len(content)
+    # lay the files out again: a program may need several sectors
+    sec, sat = 5, [[4, 49152]]
+    for f in case["parts"][0]["vols"][0]["files"]:
+        n = max(1, -(-f["size"] // 8192))
+        f["chain"] = list(range(sec, sec + n))
+        sat += [[c, c + 1] for c in f["chain"][:-1]] + [[f["chain"][-1], 49152]]
+        sec += n
+    case["parts"][0]["sat"] = sat
+    case["nsect"] = sec + 1
     return aw.build_image(case, seed)
 
 
